@@ -4,6 +4,7 @@ import (
 	"bytes"
 	"encoding/binary"
 	"fmt"
+	"strings"
 
 	"github.com/PowerDNS/lightningstream/lmdbenv/header"
 	"github.com/PowerDNS/lightningstream/snapshot"
@@ -275,6 +276,61 @@ func areaMerge(r *Rng, n int, dir string) (*AreaOut, error) {
 	// order oracle (C02): triples of entries folded in all six orders, from absent and from present
 	mergeOrderOracle(r, n/4+10, out)
 
+	// two iterators at work at the same time (one process may sync several LMDBs, one Syncer each): a value an
+	// iterator has handed out stays what it was whatever ANOTHER iterator does meanwhile, also one that has
+	// already reached the end of its input (the iterating strategy still calls its Clean afterwards)
+	for rep := 0; rep < 4; rep++ {
+		out.OracleN++
+		mk := func(key, val string, ts uint64) *syncer.NativeIterator {
+			d := snapshot.NewDBI()
+			d.Append(snapshot.KV{Key: []byte(key), Value: []byte(val), TimestampNano: ts})
+			it, err := syncer.NewNativeIterator(3, 1, d, header.Timestamp(5000+uint64(rep)), header.TxnID(7), 0)
+			if err != nil {
+				return nil
+			}
+			return it
+		}
+		a, b := mk("a", strings.Repeat("A", 10+rep), 100), mk("b", strings.Repeat("B", 30+rep), 200)
+		bad := ""
+		func() {
+			defer func() {
+				if p := recover(); p != nil {
+					bad = fmt.Sprintf("panic: %v", p)
+				}
+			}()
+			if a == nil || b == nil {
+				bad = "NewNativeIterator failed"
+				return
+			}
+			_, _ = a.Next()
+			_, _ = a.Merge(nil)
+			_, _ = a.Next() // end of A's input
+			_, _ = b.Next()
+			vb, err := b.Merge(nil)
+			if err != nil {
+				bad = "Merge: " + err.Error()
+				return
+			}
+			keep := append([]byte{}, vb...)
+			va, err := a.Clean(mkStored(50, 3, 0, 0, []byte("gone")))
+			if err != nil {
+				bad = "Clean: " + err.Error()
+				return
+			}
+			if !bytes.Equal(vb, keep) {
+				bad = fmt.Sprintf("the value iterator B built for key b (%x) became %x when iterator A (already at the end of its input) built the deletion marker %x", keep, vb, va)
+				return
+			}
+			lv, ok := logical(va)
+			if !ok || !lv.Del || len(lv.Val) != 0 {
+				bad = fmt.Sprintf("Clean built %x, not a deletion marker", va)
+			}
+		}()
+		hist(out.Hist, "interleaved-iterators")
+		if bad != "" {
+			out.Oracle = append(out.Oracle, OracleFailure{"C14", "iterators-share-nothing", bad, nil})
+		}
+	}
 	out.Cases = len(cases)
 	out.Distinct = len(nontriv)
 	for i := 0; i < 3 && i < len(cases); i++ {
